@@ -67,11 +67,14 @@ def main():
     if out.strip():
         meta["error"] = "/repo has uncommitted changes; refusing to apply"
     else:
+        # the checks run from a snapshot of /verif (own build directory), so that work on the harness can go on meanwhile
+        snap = "/tmp/verif-snapshot"
+        sh("mkdir -p %s && rsync -a --delete --exclude target --exclude replays --exclude .git /verif/ %s/" % (snap, snap))
         rc, out = sh("git -C /repo apply %s" % patch)
         try:
             for c in checks:
                 t0 = time.time()
-                rc, out = sh("./check %s %s" % (c, tier), cwd="/verif", timeout=7200)
+                rc, out = sh("./check %s %s" % (c, tier), cwd=snap, timeout=7200)
                 lines = [l for l in out.splitlines() if l.startswith(("VIOLATION", "HELD", "INCONCLUSIVE")) or l.startswith("  [")]
                 results[c] = {"exit": rc, "seconds": round(time.time() - t0, 1), "lines": lines[:12]}
         finally:
